@@ -61,7 +61,7 @@ func natvalsFromModel(model string) map[string]string {
 
 func replayValidator(w *World, ob *Obligation, rep map[string]interface{}) (bool, string) {
 	switch ob.Kind {
-	case "post", "inv-step", "inv-entry":
+	case "post", "inv-step", "inv-entry", "panics-only-if", "returns-only-if-not", "callee-panics":
 	default:
 		return false, ""
 	}
@@ -226,6 +226,59 @@ func TestGovcReplayCiphertextOps(t *testing.T) {
 }
 `
 		return runOverlayTest(rep, "pkg/paillier", "zz_govc_replay_validator_test.go", src, "TestGovcReplayCiphertextOps")
+	case "pkg/paillier:(*SecretKey).Dec", "pkg/paillier:NewSecretKeyFromPrimes", "pkg/paillier:(PublicKey).EncWithNonce", "pkg/paillier:(PublicKey).Enc":
+		src := `package paillier
+
+import (
+	"math/big"
+	"testing"
+
+	"github.com/cronokirby/saferith"
+	"github.com/taurusgroup/multi-party-sig/pkg/pool"
+)
+
+// decryption inverts encryption on the boundary lattice of the plaintext range, also with a key rebuilt from its primes
+func TestGovcReplayRoundTrip(t *testing.T) {
+	pl := pool.NewPool(0)
+	defer pl.TearDown()
+	sk := NewSecretKey(pl)
+	sk2 := NewSecretKeyFromPrimes(sk.P(), sk.Q())
+	half := new(big.Int).Rsh(new(big.Int).Sub(sk.N().Big(), big.NewInt(1)), 1)
+	ms := []*big.Int{big.NewInt(0), big.NewInt(1), big.NewInt(-1), half, new(big.Int).Neg(half),
+		new(big.Int).Sub(half, big.NewInt(1)), new(big.Int).Lsh(big.NewInt(1), 256), new(big.Int).Neg(new(big.Int).Lsh(big.NewInt(1), 1024)), big.NewInt(123456789)}
+	for _, m := range ms {
+		mi := new(saferith.Int).SetBig(m, m.BitLen()+1)
+		ct, _ := sk.Enc(mi)
+		for i, k := range []*SecretKey{sk, sk2} {
+			got, err := k.Dec(ct)
+			if err != nil {
+				t.Fatalf("key %d: Dec(Enc(%v)) fails: %v", i, m, err)
+			}
+			if got.Big().Cmp(m) != 0 {
+				t.Fatalf("key %d: Dec(Enc(%v)) = %v", i, m, got.Big())
+			}
+		}
+	}
+	// anything outside [-(N-1)/2, (N-1)/2] is refused (documented panic), the endpoints are not
+	refused := func(m *big.Int) (p bool) {
+		defer func() { p = recover() != nil }()
+		sk.Enc(new(saferith.Int).SetBig(m, m.BitLen()+1))
+		return false
+	}
+	out := new(big.Int).Add(half, big.NewInt(1))
+	for _, m := range []*big.Int{out, new(big.Int).Neg(out), sk.N().Big(), new(big.Int).Lsh(half, 1)} {
+		if !refused(m) {
+			t.Fatalf("Enc(%v) is accepted although it is outside the plaintext range", m)
+		}
+	}
+	for _, m := range []*big.Int{half, new(big.Int).Neg(half)} {
+		if refused(m) {
+			t.Fatalf("Enc(%v) is refused although it is an endpoint of the plaintext range", m)
+		}
+	}
+}
+`
+		return runOverlayTest(rep, "pkg/paillier", "zz_govc_replay_roundtrip_test.go", src, "TestGovcReplayRoundTrip")
 	case "internal/mta:newMta":
 		src := `package mta
 
